@@ -997,6 +997,52 @@ def std_model(I, p, fr, t, args):
         if r is None:
             return Unknown("eq")
         return r if n == "eq" else (not r)
+    # Option / Result combinators taking closures (evaluated by nested interpretation)
+    if isinstance(d0, Adt) and d0.path in ("core::option::Option", "core::result::Result") and sadt in ("core::option::Option", "core::result::Result"):
+        depth = getattr(fr, "depth", 0)
+        OPT, RES = "core::option::Option", "core::result::Result"
+        v = d0.fields.get("0")
+        f1 = args[1] if len(args) > 1 else None
+        if d0.path == OPT:
+            some = d0.variant == "Some"
+            if n == "is_some":
+                return some
+            if n == "is_none":
+                return not some
+            if n == "map" and isinstance(f1, FnVal):
+                return Adt(OPT, "Some", {"0": I.call_value(f1, [v], depth)}) if some else Adt(OPT, "None", {})
+            if n == "and_then" and isinstance(f1, FnVal):
+                return I.call_value(f1, [v], depth) if some else Adt(OPT, "None", {})
+            if n == "ok_or_else" and isinstance(f1, FnVal):
+                return Adt(RES, "Ok", {"0": v}) if some else Adt(RES, "Err", {"0": I.call_value(f1, [], depth)})
+            if n == "ok_or" and len(args) > 1:
+                return Adt(RES, "Ok", {"0": v}) if some else Adt(RES, "Err", {"0": args[1]})
+            if n == "unwrap_or_else" and isinstance(f1, FnVal):
+                return v if some else I.call_value(f1, [], depth)
+            if n == "unwrap_or" and len(args) > 1:
+                return v if some else args[1]
+            if n in ("cloned", "copied", "as_ref", "as_mut", "as_deref"):
+                return d0
+            if n == "filter" and isinstance(f1, FnVal):
+                if not some:
+                    return d0
+                r = I.call_value(f1, [v], depth)
+                if isinstance(r, bool):
+                    return d0 if r else Adt(OPT, "None", {})
+        else:
+            ok = d0.variant == "Ok"
+            if n == "is_ok":
+                return ok
+            if n == "is_err":
+                return not ok
+            if n == "ok":
+                return Adt(OPT, "Some", {"0": v}) if ok else Adt(OPT, "None", {})
+            if n == "map" and isinstance(f1, FnVal):
+                return Adt(RES, "Ok", {"0": I.call_value(f1, [v], depth)}) if ok else d0
+            if n == "map_err" and isinstance(f1, FnVal):
+                return d0 if ok else Adt(RES, "Err", {"0": I.call_value(f1, [v], depth)})
+            if n == "and_then" and isinstance(f1, FnVal):
+                return I.call_value(f1, [v], depth) if ok else d0
     if n in ("into_iter", "iter", "iter_mut"):
         if isinstance(d0, Vec):
             return Iter(list(d0.items))
